@@ -170,6 +170,15 @@ def plan_failures(plan, repo):
                 f["replica"] = ridx
                 fails.append(f)
         info["histories"].append(abstract_history(plan, results))
+        rep = plan["replicas"][ridx]
+        if ridx > 0 or rep.get("isolate"):
+            key = "fault_fired.replica_isolated_interpreters" if rep.get("isolate") else \
+                "fault_fired.replica_other_environment"
+            info["probes"][key] = info["probes"].get(key, 0) + 1
+        nseg = sum(1 for r in results if r.get("ok"))
+        if nseg > 1 and not rep.get("isolate"):
+            info["probes"]["fault_fired.restart"] = info["probes"].get("fault_fired.restart",
+                                                                       0) + nseg - 1
     fails.extend(compare_replicas(plan, per_replica))
     info["obs_digest"] = digest(all_obs)
     return fails, info
